@@ -8,6 +8,7 @@
 // Normalisation by the first write is allowed; only non-idempotent normalisation
 // or a read/write asymmetry fails.
 #include "cases.hpp"
+#include "graph.hpp"
 
 using namespace nifly;
 using namespace vf;
@@ -24,7 +25,30 @@ bool roundTrip(const std::string& in, std::string& out, const NifSaveOptions& op
 }
 
 Verdict prop(Tape& t, Run& run) {
-	FileCase c = decodeFileCase(t, run);
+	FileCase c;
+	if (t.peek() >= 0xE0 && t.peek() < 0xF0) {
+		// a scene graph built through the API (node trees, shapes, collision, controllers, loose blocks
+		// incl. a deep chain stored children-first, permuted order), raw-saved: the file F of this case
+		t.u8();
+		static const size_t vers[] = {4, 5, 6, 7, 8, 11};
+		size_t vi = vers[t.u8() % 6];
+		NifFile g;
+		GraphInfo gi = buildGraph(g, t, vi);
+		if (saveBytes(g, c.bytes, rawOpts()) == 0) {
+			c.ok = true;
+			c.kind = "graph";
+			c.label = gi.str();
+			c.vi = vi;
+			c.version = versions()[vi].name;
+			c.populated = true;
+			c.hash = fnv1a(c.bytes);
+			c.payloadSize = c.bytes.size();
+		}
+		else
+			c.why = "generated graph cannot be saved";
+	}
+	else
+		c = decodeFileCase(t, run);
 	if (!c.ok) {
 		run.exclude(c.why);
 		return OK;
@@ -37,7 +61,7 @@ Verdict prop(Tape& t, Run& run) {
 	auto detail = [&](const std::string& what, const std::string& diff) {
 		return J().s("kind", c.kind).s("subject", c.label).s("version", c.version).s("what", what).s("first_difference", diff).s("nif_hex", to_hex(c.bytes)).str();
 	};
-	const std::string sigBase = "C01:" + (c.kind == "synthN" ? std::string("multi") : c.label) + "@" + c.version;
+	const std::string sigBase = "C01:" + (c.kind == "synthN" ? std::string("multi") : c.kind == "graph" ? std::string("graph") : c.label) + "@" + c.version;
 
 	// ---- raw
 	int rc = 0;
@@ -66,6 +90,17 @@ Verdict prop(Tape& t, Run& run) {
 		return run.fail(sigBase + ":default-reload", detail("default output not accepted again (round 2), load rc=" + std::to_string(rc), ""));
 	if (!roundTrip(s2, s3, defOpts(), rc))
 		return run.fail(sigBase + ":default-reload", detail("default output not accepted again (round 3), load rc=" + std::to_string(rc), ""));
+	if (getenv("VF_DEBUG"))
+	{
+		fprintf(stderr, "case %s %s: F=%zu S1=%zu S2=%zu S3=%zu bytes\n", c.kind.c_str(), c.label.c_str(), c.bytes.size(), s1.size(), s2.size(), s3.size());
+		for (const std::string* f : {&c.bytes, &s1, &s2, &s3}) {
+			auto m = mini::parse(*f);
+			std::string ty;
+			for (uint32_t i = 0; i < m.numBlocks; i++)
+				ty += m.typeOf(i) + " ";
+			fprintf(stderr, "  blocks=%u: %s\n", m.numBlocks, ty.c_str());
+		}
+	}
 	if (s3 != s2)
 		return run.fail(sigBase + ":default", detail("default save has not converged after two rounds: S3 != S2", firstDiff(s2, s3)));
 	if (!roundTrip(s3, s4, defOpts(), rc))
@@ -81,6 +116,13 @@ void deterministic(Run& run, const std::function<void(const std::vector<uint8_t>
 	const bool th = run.args.tier == "thorough";
 	enumerateFileCases(run, feed, th ? 8 : 3);
 	enumerateSweep(run, feed, th ? 24 : 8, th ? 32 : 24, th ? 8 : 3);
+	// generated scene graphs: six versions x constant-byte tapes (the ones = 3 mod 4 carry the deep loose chain)
+	for (uint8_t v = 0; v < 6; v++)
+		for (uint8_t pat : {0x00, 0x03, 0x07, 0x63, 0xA3, 0xC7, 0xFF, 0x55, 0x9B}) {
+			std::vector<uint8_t> tape = {0xE0, v};
+			tape.resize(400, pat);
+			feed(tape);
+		}
 }
 
 } // namespace
@@ -92,7 +134,7 @@ int main(int argc, char** argv) {
 	h.deterministic = deterministic;
 	h.maxTape = 2000;
 	h.quickCases = 25000;
-	h.thoroughCases = 2000000;
+	h.thoroughCases = 800000;
 	h.rule = "case = file F (26 samples; single synthesised subject of every registered type x 14 versions from pattern "
 			 "and rapidcheck tapes; multi-block synthesised files); checked: raw fixed point O2==O1 and default-save "
 			 "convergence S3==S2==S4. Non-trivial = accepted file whose subject payload is longer than the all-zero-tape "
